@@ -11,13 +11,14 @@ git -C $WT checkout -q -- . ; git -C $WT clean -qfd tests >/dev/null 2>&1
 git -C $WT checkout -q --detach $H
 DEMO=$(ls $S/verif_demo_*.rs | head -1); DN=$(basename $DEMO .rs)
 cp $DEMO $WT/tests/
+FEAT=""; [ -f $S/features.txt ] && FEAT="--features $(cat $S/features.txt)"
 cd $WT
 if ! git apply --check $S/patch.diff; then echo '{"applies": false}' > $S/confirm.json; exit 1; fi
 git apply $S/patch.diff
-cargo test --offline --test $DN > $S/demo_with.log 2>&1; DW=$?
+cargo test --offline $FEAT --test $DN > $S/demo_with.log 2>&1; DW=$?
 /tmp/wt/run_suite.sh $WT > $S/suite.log 2>&1; SU=$?
 git apply -R $S/patch.diff
-cargo test --offline --test $DN > $S/demo_without.log 2>&1; DO=$?
+cargo test --offline $FEAT --test $DN > $S/demo_without.log 2>&1; DO=$?
 rm -f $WT/tests/$DN.rs
 tail -3 $S/suite.log
 python3 - <<P
